@@ -387,6 +387,36 @@ func scenarios(tier string) []scenario {
 				}})
 		}
 	}
+	// F4b: other frame types queued behind window-blocked DATA must keep their per-stream order
+	for _, iw := range []uint32{0, 2} {
+		for vi, tail := range [][]hw.Spec{
+			{{T: "rst", Stream: 1, Code: 8}},
+			{{T: "priority", Stream: 1, Prio: true, Weight: 33}, {T: "data", Stream: 1, Len: 2, EndStream: true}},
+			{{T: "data", Stream: 1, Len: 3}, {T: "headers", Stream: 1, Fields: trailerFields, Frags: 2, EndStream: true}},
+			{{T: "data", Stream: 1, Len: 0, EndStream: true}},
+		} {
+			c := append([]hw.Spec{{T: "headers", Stream: 1, Fields: reqFields}, {T: "data", Stream: 1, Len: 5}}, tail...)
+			out = append(out, scenario{Fam: "window", Name: fmt.Sprintf("server initial window %d; s1 data blocked then tail variant %d, s3 in between, then credit", iw, vi),
+				Steps: []step{
+					{Client: []hw.Spec{{T: "settings"}}, Server: []hw.Spec{{T: "settings", Settings: [][2]uint32{{4, iw}}}}},
+					{Client: c},
+					{Client: []hw.Spec{{T: "headers", Stream: 3, Fields: reqFields, EndStream: true}}},
+					{Server: []hw.Spec{{T: "wu", Stream: 1, Incr: 3}}},
+					{Server: []hw.Spec{{T: "wu", Stream: 1, Incr: 20}}},
+				}})
+			// mirrored: the client's window blocks the response
+			sv := append([]hw.Spec{{T: "headers", Stream: 1, Fields: resFields}, {T: "data", Stream: 1, Len: 5}}, tail...)
+			out = append(out, scenario{Fam: "window", Name: fmt.Sprintf("client initial window %d; s1 response data blocked then tail variant %d, then credit", iw, vi),
+				Steps: []step{
+					{Client: []hw.Spec{{T: "settings", Settings: [][2]uint32{{4, iw}}}}, Server: []hw.Spec{{T: "settings"}}},
+					{Client: []hw.Spec{{T: "headers", Stream: 1, Fields: reqFields, EndStream: true}, {T: "headers", Stream: 3, Fields: reqFields, EndStream: true}}},
+					{Server: sv},
+					{Server: []hw.Spec{{T: "headers", Stream: 3, Fields: resFields, EndStream: true}}},
+					{Client: []hw.Spec{{T: "wu", Stream: 1, Incr: 3}}},
+					{Client: []hw.Spec{{T: "wu", Stream: 1, Incr: 20}}},
+				}})
+		}
+	}
 	// F5: connection-level frames, PRIORITY, PUSH_PROMISE
 	for _, fr := range []int{1, 2, 3} {
 		out = append(out, scenario{Fam: "misc", Name: fmt.Sprintf("push promise frags=%d then pushed response", fr), Class: map[bool]string{true: "continuation", false: ""}[fr > 1],
